@@ -331,6 +331,15 @@ def targeted(rng, n):
         r2 = q(rng, rng.choice(QNAMES[:8]))
         out.append(finish({'type': 'call', 'cls': 'Qube', 'name': 'broadcast', 'how': 'static', 'owner': 'Qube',
                            'ops': [None, r, r2, {'k': 'ref', 'i': 1}], 'kw': {}}))
+        # an operand whose derivative has another class than the operand (conversion of the derivatives must not be
+        # done on the caller's object)
+        cls = rng.choice(['Vector3', 'Pair'])
+        a = q(rng, cls, shape=rng.choice([[], [3]]), plain=True, mask='F')
+        a['derivs'] = {'t': {'k': 'q', 'cls': 'Vector', 'shape': a['shape'], 'numer': a['numer'],
+                             'seed': rng.randrange(1 << 20), 'dtype': 'float', 'mask': 'F'}}
+        recv = q(rng, cls, shape=a['shape'], plain=True)
+        out.append(finish({'type': 'call', 'cls': cls, 'name': rng.choice(['as_this_type', '__add__', '__sub__', 'dot',
+                           '__eq__', 'as_this_type']), 'how': 'method', 'owner': 'Qube', 'ops': [recv, a], 'kw': {}}))
         # builtin protocols
         r = q(rng, rng.choice(QNAMES))
         out.append(finish({'type': 'call', 'cls': r['cls'], 'name': rng.choice(['copy.copy', 'copy.deepcopy', 'list',
@@ -353,7 +362,7 @@ MUTS_NUM = ['setitem_all', 'setitem_0', 'setitem_masked', 'setitem_bool', 'iadd'
 MUTS_BOOL = ['setitem_all', 'setitem_0', 'setitem_masked', 'setitem_bool', 'ior', 'iand', 'ixor', 'as_readonly',
              'values_write', 'mask_write']
 DERIVES = ['copy', 'copy', 'copy_norec', 'copy_ro', '__copy__', 'deepcopy']
-SHARED = ['clone', 'wod', 'slice', 'slice0', 'reshape', 'flatten', 'swap_axes', 'neg', 'add0', 'as_float',
+SHARED = ['share_mask', 'share_mask_ro', 'share_mask', 'clone', 'wod', 'slice', 'slice0', 'reshape', 'flatten', 'swap_axes', 'neg', 'add0', 'as_float',
           'without_mask', 'remask', 'fancy', 'broadcast']
 
 
@@ -380,6 +389,10 @@ def sequences(rng, n, nshared):
             src.pop('ro', None)
             muts = [{'m': rng.choice(['setitem_all', 'values_write', 'mask_write', 'iadd'])}]
             side = 'src'
+            if derive.startswith('share_mask'):
+                src['mask'] = 'A'
+                api = [m for m in pool if m not in ('mask_write', 'values_write', 'vals_write', 'deriv_values_write')]
+                muts = [{'m': rng.choice(api)} for _ in range(rng.choice([1, 2, 4]))]
         for m in muts:
             if m['m'] in ('delete_deriv', 'deriv_setitem', 'deriv_imul', 'deriv_values_write'):
                 m['key'] = 't'
@@ -450,13 +463,26 @@ def catalogued(rng, n):
     return out
 
 
+def possible_members():
+    """(owner, name) of the functions in which the translator found a POSSIBLE write site"""
+    try:
+        import c07_py2lean as T
+        sites, _ = T.scan()
+        return {tuple(s['fn'].split('.', 1)) for s in sites if s['root'][0] == 'may'}
+    except Exception:
+        return set()
+
+
 def gen_cases(rng, tier):
     thorough = tier == 'thorough'
     rows = S.api_table()
     cases = []
+    monitored = possible_members()
     for cname, name, how, owner in rows:
         own = owner == cname
         k = (24 if own else 8) if thorough else (8 if own else 3)
+        if (owner, name) in monitored:
+            k *= 4          # functions with POSSIBLE (may-alias) write sites are monitored more closely
         if cname == 'Units':
             k *= 2
         for _ in range(k):
